@@ -3,5 +3,6 @@ CONSTANTS MaxOps = 7
 Widths = {1, 130}
 Bursts = {129}
 Fam = {"frame", "closure", "clone"}
+Deep = FALSE
 INVARIANT FramesDistinct
 CHECK_DEADLOCK FALSE
